@@ -15,7 +15,7 @@ use crate::core::*;
 use crate::refmodel::{distinct_rows, tuple_eq};
 use crate::sut::{self, rows_json, rows_same, Outcome, RVal};
 
-const DEF: &str = "CREATE TABLE t({ .m } => m TEXT, { .a } => a REAL, { .b } => b TEXT, { .i } => i INT);";
+const DEF: &str = "CREATE TABLE t({ .m } => m TEXT, { .a } => a REAL, { .b } => b TEXT, { .i } => i INT, { .j } => j INT);";
 
 fn alpha() -> Vec<&'static str> {
     vec![
@@ -27,6 +27,9 @@ fn alpha() -> Vec<&'static str> {
         r#"{"m":"m","a":0.0,"b":"a","i":0}"#,
         r#"{"m":"m","a":-0.0,"b":"a","i":0}"#,
         r#"{"m":"m","a":1,"b":"a"}"#,
+        r#"{"m":"m","i":1,"j":2,"b":"c"}"#,
+        r#"{"m":"m","i":2,"j":1,"b":"c"}"#,
+        r#"{"m":"m","j":1,"b":"d"}"#,
         "noise",
     ]
 }
@@ -42,6 +45,8 @@ fn stmts() -> Vec<&'static str> {
         "SELECT DISTINCT a + 1.0, b FROM t",
         "SELECT DISTINCT * FROM t",
         "SELECT DISTINCT i, a FROM t WHERE b = 'a'",
+        "SELECT DISTINCT i, j FROM t",
+        "SELECT DISTINCT j, i, b FROM t",
     ]
 }
 
@@ -122,7 +127,11 @@ fn gap_lines(kind: usize, g: usize) -> Vec<String> {
     v
 }
 
-const AGG_STMTS: [&str; 6] = [
+const AGG_STMTS: [&str; 10] = [
+    "SELECT DISTINCT COUNT(*) FROM t GROUP BY b HAVING b != 'a'",
+    "SELECT DISTINCT COUNT(*), MAX(i) FROM t GROUP BY b HAVING COUNT(*) < 2",
+    "SELECT DISTINCT MAX(i), MIN(j) FROM t GROUP BY b",
+    "SELECT DISTINCT MIN(j), MAX(i) FROM t GROUP BY a HAVING MAX(i) > 0",
     "SELECT DISTINCT COUNT(*) FROM t GROUP BY b",
     "SELECT DISTINCT COUNT(*) FROM t GROUP BY b HAVING COUNT(*) > 0",
     "SELECT DISTINCT MAX(i), COUNT(*) FROM t GROUP BY b",
@@ -213,7 +222,7 @@ pub fn run(ctx: &Ctx) -> i32 {
         if nt {
             col.nontrivial(h64(&("seq", si, &seq)));
         }
-        col.outcome(h64(&(fs.len(), nt)));
+        col.outcome(h64(&(fs.len(), nt, seq.iter().map(|x| *x as u64).sum::<u64>() % 64)));
         if idx % 50021 == 11 {
             col.sample(json!({"layer": "seq", "statement": stmts()[si], "lines": lines}));
         }
